@@ -45,11 +45,18 @@ type c04Case struct {
 
 // ---- rendering: tagged document value -> JSON text (member order as given)
 
+// The specification writes the one non-ASCII character of its vocabulary as an ASCII token (TLC's Json
+// module does not carry non-ASCII text); the driver renders the token as the rune and reads it back.
+const c04RuneToken, c04Rune = "{U+00E9}", "\u00e9"
+
+func c04Out(s string) string { return strings.ReplaceAll(s, c04RuneToken, c04Rune) }
+func c04In(s string) string  { return strings.ReplaceAll(s, c04Rune, c04RuneToken) }
+
 func c04Render(b *bytes.Buffer, v any) {
 	m := v.(map[string]any)
 	switch m["t"] {
 	case "s":
-		s, _ := json.Marshal(m["s"].(string))
+		s, _ := json.Marshal(c04Out(m["s"].(string)))
 		b.Write(s)
 	case "n":
 		b.WriteString(strconv.Itoa(asInt(m["n"])))
@@ -75,7 +82,7 @@ func c04Render(b *bytes.Buffer, v any) {
 				b.WriteByte(',')
 			}
 			p := x.(map[string]any)
-			k, _ := json.Marshal(p["k"].(string))
+			k, _ := json.Marshal(c04Out(p["k"].(string)))
 			b.Write(k)
 			b.WriteByte(':')
 			c04Render(b, p["v"])
@@ -107,7 +114,7 @@ func c04Parse(dec *json.Decoder) (any, error) {
 				if err != nil {
 					return nil, err
 				}
-				fs = append(fs, map[string]any{"k": kt.(string), "v": v})
+				fs = append(fs, map[string]any{"k": c04In(kt.(string)), "v": v})
 			}
 			if _, err := dec.Token(); err != nil {
 				return nil, err
@@ -128,7 +135,7 @@ func c04Parse(dec *json.Decoder) (any, error) {
 			return map[string]any{"t": "a", "a": as}, nil
 		}
 	case string:
-		return map[string]any{"t": "s", "s": t}, nil
+		return map[string]any{"t": "s", "s": c04In(t)}, nil
 	case json.Number:
 		n, err := t.Int64()
 		if err != nil {
